@@ -75,7 +75,7 @@ func stringify(v *Val, inProcess util.PtrSet) string {
 		return fmt.Sprintf("%s#%p", v.Fun().Type.String(), v)
 	case types.KMaybe:
 		mb := v.Maybe()
-		ks := mb.Type.Maybe().Elem.String()
+		ks := mb.Type.Maybe().Elem.CanonicalString()
 		if mb.V == nil {
 			return fmt.Sprintf("Nothing#%s()", ks)
 		} else {
